@@ -20,7 +20,9 @@ def make_world():
     from vlib import worlds as W
     w = W.mixed_world(2, groups=True, multimappers=True)
     # feature ids that look like missing values to table-processing libraries
-    ren = {"GB1": "NA", "TB1_1": "null", "TB1_2": "nan"}
+    # ... and ids of an earlier IsoQuant run (the numbers they occupy are skipped when novel ids are handed out - in every experiment)
+    ren = {"GB1": "NA", "TB1_1": "null", "TB1_2": "nan", "TA0_2": "transcript1.chr1.nic", "TA0_3": "transcript2.chr1.nnic",
+           "TB0_2": "transcript4.chr1.nic", "TA1_2": "transcript1.chr2.nnic", "TA1_3": "transcript3.chr2.nic"}
     for g in w["genes"]:
         g["id"] = ren.get(g["id"], g["id"])
         for t in g["transcripts"]:
